@@ -45,8 +45,15 @@ def gen_case(seed, tier="quick"):
         # partial evaluations of one original whose shape function has TWO outer variables (t, s)
         rq = rnd(seed, "pe")
         a2 = lambda base, lo=0.1, hi=0.6: ["aff2", GG.q(base), GG.q(rq.uniform(lo, hi)), "t", GG.q(rq.uniform(lo, hi)), "s"]
-        k = rq.choice(("circ", "iv", "par", "sph"))
-        if k == "circ":
+        k = rq.choice(("circ", "iv", "par", "sph", "cutc"))
+        if k == "cutc":
+            # a cut declared contained (|A| - |B|): the flag must survive the partial evaluation
+            ox, oy, w = GG.q(rq.uniform(-2, 0)), GG.q(rq.uniform(-2, 0)), GG.q(rq.uniform(3.0, 4.0))
+            dom = {"k": "cut", "contained": True,
+                   "a": {"k": "par", "var": "x", "o": [ox, oy], "c1": [ox + w, oy], "c2": [ox, oy + w]},
+                   "b": {"k": "circ", "var": "x", "c": [GG.q(ox + w / 2), GG.q(oy + w / 2)],
+                         "r": ["aff2", GG.q(rq.uniform(0.2, 0.4)), GG.q(rq.uniform(0.1, 0.4)), "t", GG.q(rq.uniform(0.1, 0.4)), "s"]}}
+        elif k == "circ":
             dom = {"k": "circ", "var": "x", "c": [GG.q(rq.uniform(-2, 2)), GG.q(rq.uniform(-2, 2))], "r": a2(rq.uniform(0.3, 1.0))}
         elif k == "sph":
             dom = {"k": "sph", "var": "x", "c": [GG.q(rq.uniform(-2, 2)) for _ in range(3)], "r": a2(rq.uniform(0.3, 1.0))}
@@ -56,7 +63,7 @@ def gen_case(seed, tier="quick"):
         else:
             ox, oy = GG.q(rq.uniform(-2, 1)), GG.q(rq.uniform(-2, 1))
             dom = {"k": "par", "var": "x", "o": [ox, oy], "c1": [a2(ox + rq.uniform(0.5, 2.0)), oy], "c2": [ox, GG.q(oy + rq.uniform(0.5, 2.0))]}
-        if rq.random() < 0.3 and k != "iv":
+        if rq.random() < 0.3 and k not in ("iv", "cutc"):
             dom = {"k": "bnd", "d": dom}
         ops = []
         for _ in range(rq.choice((2, 3, 4))):
